@@ -110,9 +110,11 @@ sfd_tran_pipe_stop(void *arg)
 	nni_aio_stop(&p->rxaio);
 	nni_aio_stop(&p->txaio);
 	nni_aio_stop(&p->negoaio);
-	nni_mtx_lock(&ep->mtx);
-	nni_list_node_remove(&p->node);
-	nni_mtx_unlock(&ep->mtx);
+	if (ep != NULL) { // (NULL if the pipe never got started)
+		nni_mtx_lock(&ep->mtx);
+		nni_list_node_remove(&p->node);
+		nni_mtx_unlock(&ep->mtx);
+	}
 }
 
 static const nng_sockaddr *
